@@ -134,6 +134,8 @@ def lean_dispatch_entry(info, ns):
         elif c == "v8":
             outs.append("(%s).toList" % pr)
         elif c in ("ptr", "arr"):
+            if nm is None or nm not in region_lens:
+                return None
             outs.append("(Region.toList %s %s)" % (pr, region_lens[nm]))
         else:
             return None
@@ -207,7 +209,14 @@ def cpp_dispatch_entry(info):
             q = pd["type"]["qualType"]
             elty = "Goldilocks::Element" if "Element" in q else "uint64_t"
             lines.append("    Buf %s = A.r();" % v)
-            call_args.append("(%s*)%s.p" % (elty, v))
+            dq = pd["type"].get("desugaredQualType", q)
+            if "Goldilocks3::Element" in q or "(&)[3]" in dq or "(*)[3]" in dq:
+                if q.strip().endswith("&") or "(&)[3]" in dq:
+                    call_args.append("*(Goldilocks3::Element *)%s.p" % v)
+                else:
+                    call_args.append("(Goldilocks3::Element *)%s.p" % v)
+            else:
+                call_args.append("(%s*)%s.p" % (elty, v))
             if mode != "in":
                 post.append("    for (size_t i=0;i<%s.n;i++) outw(%s.p[i]);" % (v, v))
             post.append("    %s.check();" % v)
@@ -296,6 +305,14 @@ def main():
                     continue
                 try:
                     tr.need_fn(d)
+                    for al in (m.get("aliases", {}) or {}).get(fname, []):
+                        names = [c.get("name") for c in d.get("inner", []) if c.get("kind") == "ParmVarDecl"]
+                        if all(a in names and b in names for a, b in al):
+                            try:
+                                tr.need_fn(d, alias=tuple(al))
+                            except Unsupported as e:
+                                if "aliased parameters of different kinds" not in str(e):
+                                    raise
                 except Unsupported as e:
                     st["ok"] = False
                     st["errors"].append("%s::%s %s: %s" % (cls, fname, d["type"]["qualType"], e))
@@ -305,7 +322,7 @@ def main():
         for info in tr.order:
             q = copy.copy(info)
             q.lean_name = m["ns"] + "." + info.lean_name
-            reg_fns[info.decl["id"]] = q
+            reg_fns[getattr(info, "key", info.decl["id"])] = q
         for vid, (lname, _) in tr.consts.items():
             reg_consts[vid] = m["ns"] + "." + lname
         st["functions"] = len(tr.order)
@@ -316,6 +333,8 @@ def main():
             dispatch_imports.append("GoldilocksVerif.Gen." + name)
             for info in tr.order:
                 if m.get("dispatch_filter") and not m["dispatch_filter"](info):
+                    continue
+                if getattr(info, "alias", None):
                     continue
                 la = lean_dispatch_entry(info, m["ns"])
                 ca = cpp_dispatch_entry(info) if la else None
